@@ -50,7 +50,7 @@ def main():
         res["alarms"] = [c for c, e in res["checks"].items() if e["exit"] != 0]
     finally:
         sh("git -C /repo worktree remove --force %s" % wt); shutil.rmtree(wt, ignore_errors=True); shutil.rmtree(vcopy, ignore_errors=True); sh("git -C /repo worktree prune")
-    json.dump(res, open(os.path.join(d, "result.json"), "w"), indent=1)
+    json.dump(res, open(os.path.join(d, os.environ.get("REF_OUT", "result.json")), "w"), indent=1)
     print(os.path.basename(d), "suite_passes=%s alarms=%s" % (res.get("suite_passes"), res.get("alarms")))
     return 0
 
